@@ -407,8 +407,23 @@ fn stress(pr: &PropRun) -> LaneReport {
             for _ in 0..(round % 50) * 20 {
                 std::hint::spin_loop();
             }
+            // whatever happens below, the emitters are told to stop (a panic in into_inner must become a
+            // reported violation, not a scope that waits for ever)
+            struct StopOnDrop<'a>(&'a std::sync::atomic::AtomicBool);
+            impl Drop for StopOnDrop<'_> {
+                fn drop(&mut self) {
+                    self.0.store(true, Ordering::Release);
+                }
+            }
+            let _stop_guard = StopOnDrop(&stop);
             if into_inner {
-                let rec = handle.into_inner();
+                let rec = match std::panic::catch_unwind(std::panic::AssertUnwindSafe(|| handle.into_inner())) {
+                    Ok(r) => r,
+                    Err(p) => {
+                        bad = Some(("into_inner-panicked".into(), format!("into_inner() panicked under concurrent emission instead of returning the recorder: {}", crate::engine::runner::panic_message(&*p))));
+                        return;
+                    }
+                };
                 let ins = inside.load(Ordering::SeqCst);
                 if ins != 0 {
                     bad = Some(("into_inner-returned-while-call-inside".into(), format!("{} calls inside the recorder when into_inner returned", ins)));
